@@ -138,6 +138,12 @@ pub fn check(cx: &Cx, rep: &mut Report) {
         }
     }
     super::stop_starvation("C04", cx, rep);
+    // R1 (cont.): "its call returns Ok": a call that was handled to completion before the actor stopped is answered,
+    // however closely the stop follows it
+    for (j, s) in super::handled_call_without_reply(cx) {
+        let o = &ix.ops[j];
+        rep.fail(P, "R1", format!("handled_call_got={}", match &o.res { Some(Res::Err(e)) => e, _ => "other" }), format!("call c{}#{} (msg {}) was handled to completion (handler exit at #{s}) but the caller got {:?}", o.c, o.i, o.msg, o.res), vec![o.b, s]);
+    }
     // R3 (cont.): after an accepted stop the actor is on its way out: never idle and alive at a quiescent point
     rep.premise_n("C04.R3.not_idle_after_accepted_stop", fx.values().filter(|a| a.first_accept_r().is_some()).count() as u64);
     for (tag, acc, q) in super::idle_after_accepted_stop(cx) {
